@@ -22,9 +22,14 @@ RULE = ("metamorphic on the real code (model-free verdict: image of the program 
         "(2) files: abstract programs of 1-3 linked files + include files (depth <= 3) made of '.word .+k', .byte, .blkb, .even, insert_file (0-300 "
         "bytes), .include, .end/end, .once; transformations concat-linked-files, insert->.byte (empty insert -> nothing), cut-after-.end in a main / "
         "linked / included file, include-a-.once-file 1-3 times -> once, paste-included-file; both programs through Model/Structure in Coq. "
+        "(2b) '.once' under path spellings, on REAL files in a scratch directory (path handling goes through os.path): a '.once' file included 2-3 "
+        "times, directly or through a nested include resolved relative to the including file, each time under another spelling of its path "
+        "(lib.mac, ./lib.mac, sub/../lib.mac, absolute normalised, absolute with /./, // or /sub/../) = the program with only the first inclusion. "
         "(3) the same five transformations on rich programs from tools/proggen.py (labels, constants, forward references, exported symbols across "
         "files, local labels, repeats, strings, skips).  non-trivial = distinct program text whose transformation changes the text and, for repeat, "
-        "has count >= 2 and a '.' / hoisted / impure / branch feature")
+        "has count >= 2 and a '.' / hoisted / impure / branch feature.  Domain restriction: '. = X' inside a body is generated only after a leading "
+        "'.link' (a '. =' met before the base is set is the base-setting form, on which the property is silent; a repeat with a forward-referenced "
+        "count is compiled after the base is known, so the two texts are not comparable there)")
 LEVEL_TEXT = ("Coq theorems (lists of any length, unbounded Z, every n, every nesting) about two executable models: TreeCache -- the operand/expression "
               "token tree with everything the code writes on it (impure-operator (args,value) cache, reported flags, CharLiteral cache, in-place "
               "fixup_label) and derives from it (hoist with shallow copies), threaded through the n compilations of a '.repeat' body: hoist_pure, "
@@ -599,6 +604,106 @@ def _fs_back(fs):
 
 
 # ------------------------------------------------------------------------------------------------
+# (2b) '.once' and the spelling of include paths: real files
+ROOT = "{ROOT}"
+LIB_SPELLINGS = ["lib.mac", "./lib.mac", "sub/../lib.mac", ROOT + "/lib.mac", ROOT + "/./lib.mac", ROOT + "//lib.mac",
+                 ROOT + "/sub/../lib.mac", "sub/./../lib.mac", ROOT + "/sub/..//lib.mac"]
+
+
+def path_case(rng):
+    """-> (kind, real files {relpath: template}, main template, reference main template)"""
+    r = rng
+    lib = ".once\nlibfn: mov #%s, r0\n.word ., libfn\n" % oct(r.randrange(1, 200))[2:]
+    files = {"lib.mac": lib,
+             "sub/inner.mac": "clr r4\n.include \"../lib.mac\"\nclr r5\n",          # relative to sub/
+             "sub/inner_nolib.mac": "clr r4\nclr r5\n",
+             "sub/deep/inner2.mac": "inc r4\n.include \"../../sub/../lib.mac\"\n",
+             "sub/deep/inner2_nolib.mac": "inc r4\n"}
+    k = r.choice([2, 2, 3])
+    uses = []
+    for i in range(k):
+        c = r.random()
+        if c < 0.2:
+            uses.append(("nested", "sub/inner.mac", "sub/inner_nolib.mac"))
+        elif c < 0.3:
+            uses.append(("nested", "sub/deep/inner2.mac", "sub/deep/inner2_nolib.mac"))
+        elif c < 0.4:
+            uses.append(("nested", ROOT + "/sub/./inner.mac", "sub/inner_nolib.mac"))
+        else:
+            uses.append(("direct", r.choice(LIB_SPELLINGS), None))
+    if all(u[1] == uses[0][1] for u in uses) and uses[0][0] == "direct":
+        uses[-1] = ("direct", r.choice([x for x in LIB_SPELLINGS if x != uses[0][1]]), None)
+    main, ref = [], []
+    if r.random() < 0.5:
+        main.append(".link %s" % oct(r.choice([0o1000, 0o2000, 0o40000]))[2:])
+        ref.append(main[-1])
+    for i, (how, path, nolib) in enumerate(uses):
+        filler = "clr r%d" % (i % 4)
+        main += [filler, '.include "%s"' % path]
+        ref.append(filler)
+        if i == 0:
+            ref.append('.include "%s"' % path)
+        elif how == "nested":
+            ref.append('.include "%s"' % nolib)
+    main.append("halt")
+    ref.append("halt")
+    kind = "once-paths:" + "+".join(("abs" if u[1].startswith(ROOT) else "rel") + ("-nested" if u[0] == "nested" else "")
+                                   + ("-unnormalised" if u[1].startswith(ROOT) and ("/./" in u[1] or "//" in u[1] or "/../" in u[1]) else "") for u in uses)
+    return kind, files, "\n".join(main) + "\n", "\n".join(ref) + "\n"
+
+
+def materialise(root, files):
+    import os
+    for rel, text in files.items():
+        path = os.path.join(root, rel)
+        os.makedirs(os.path.dirname(path), exist_ok=True)
+        with open(path, "w") as f:
+            f.write(text.replace(ROOT, root))
+
+
+def paths_family(rep, rng, n_cases):
+    import os
+    import shutil
+    base = os.path.realpath("/tmp/c16")
+    root = os.path.join(base, "paths-%d" % os.getpid())
+    os.makedirs(root, exist_ok=True)
+    try:
+        items, pairs = [], []
+        for i in range(n_cases):
+            kind, files, main, ref = path_case(rng)
+            d = os.path.join(root, "c%d" % i)
+            materialise(d, files)
+            items.append((kind, files, main, ref, d))
+            pairs.append(([(d + "/main.mac", main.replace(ROOT, d))], [(d + "/main.mac", ref.replace(ROOT, d))], None))
+        outs = run_pairs(pairs)
+        for (kind, files, main, ref, d), (a, b) in zip(items, outs):
+            rep.add_eval(2)
+            rep.count("files:" + kind.split(":")[0] + ":" + a["outcome"])
+            spell = kind.split(":")[1].split("+")
+            rep.count("paths:includes=%d" % len(spell))
+            for tag in ("abs", "rel"):
+                if any(x.startswith(tag) for x in spell):
+                    rep.count("paths:has-" + tag)
+            for tag in ("nested", "unnormalised"):
+                if any(tag in x for x in spell):
+                    rep.count("paths:has-" + tag)
+            rep.nontrivial(("paths", digest(main, files["lib.mac"])))
+            if view(a) != view(b):
+                rep.violate("once-paths:" + digest(main), "a '.once' file included again under another spelling of its path contributed again",
+                            {"files": [["{ROOT}/main.mac", main]], "files_transformed": [["{ROOT}/main.mac", ref]], "real_files": files,
+                             "transformation": kind, "note": "{ROOT} = a scratch directory holding real_files"},
+                            impl=brief(a), impl_transformed=brief(b))
+        if items:
+            rep.sample({"once_paths_program": items[0][2], "reference": items[0][3], "impl": brief(outs[0][0])})
+    finally:
+        shutil.rmtree(root, ignore_errors=True)
+        try:
+            os.rmdir(base)
+        except OSError:
+            pass
+
+
+# ------------------------------------------------------------------------------------------------
 def explore(rep, br, tier, seed):
     rng = random.Random(seed)
     quick = tier == "quick"
@@ -613,7 +718,9 @@ def explore(rep, br, tier, seed):
         structure_family(rep, rng, 210 if quick else 4200, with_model=True)
     except RuntimeError as ex:
         err = err or ex
+    paths_family(rep, rng, 60 if quick else 600)
     rich_family(rep, rng, 60 if quick else 1200)
+    probe_dot_assign(rep)
     rep.notes.append("repeat/unroll and the five file transformations are judged on the implementation alone; the Coq judge repeats the comparison "
                      "of the two observed images and checks both against the models")
     if err is not None:
@@ -629,6 +736,19 @@ def explore(rep, br, tier, seed):
 KNOWN_END = "end-inside-repeat"
 
 
+def probe_dot_assign(rep):
+    """reported candidate, outside the generated domain ('. = X' in a body is only generated after a '.link'):
+    a '.repeat' whose count is a forward reference is compiled after the base is known, so '. = . + 0'
+    inside it is a skip, while the same line written out is met before the base is known and sets the base"""
+    a = impl.assemble([("t.mac", ".repeat a {\n. = . + 0\n}\n.word 1\na = 2\n.link 2000\n")])
+    b = impl.assemble([("t.mac", ". = . + 0\n. = . + 0\n.word 1\na = 2\n.link 2000\n")])
+    rep.add_eval(2)
+    rep.count("probe:dot-assign-in-deferred-repeat:" + ("differs" if view(a) != view(b) else "same"))
+    if view(a) != view(b):
+        rep.notes.append("candidate (not judged): '.repeat a { . = . + 0 }' with 'a' and '.link' defined afterwards assembles (%s) while the "
+                         "written-out text fails (%s)" % (brief(a)["outcome"], ",".join(brief(b)["errors"]) or brief(b)["outcome"]))
+
+
 def search_without_model(rep, tier, seed):
     if not any(v["signature"] != KNOWN_END for v in rep.violations):
         search(rep, None, tier, seed)
@@ -640,6 +760,7 @@ def search(rep, br, tier, seed):
         rng = random.Random(seed * 7919 + k)
         repeat_family(rep, rng, 600, 0, with_model=False, label="search-repeat")
         structure_family(rep, rng, 300, with_model=False)
+        paths_family(rep, rng, 100)
         rich_family(rep, rng, 80)
         if any(v["signature"] != KNOWN_END for v in rep.violations):
             return
@@ -647,6 +768,24 @@ def search(rep, br, tier, seed):
 
 def replay(data):
     inp = data["input"]
+    if inp.get("real_files"):
+        import os
+        import shutil
+        base = os.path.realpath("/tmp/c16")
+        root = os.path.join(base, "replay-%d" % os.getpid())
+        try:
+            materialise(root, inp["real_files"])
+            a = impl.assemble([(fn.replace(ROOT, root), t.replace(ROOT, root)) for fn, t in inp["files"]])
+            b = impl.assemble([(fn.replace(ROOT, root), t.replace(ROOT, root)) for fn, t in inp["files_transformed"]])
+        finally:
+            shutil.rmtree(root, ignore_errors=True)
+            try:
+                os.rmdir(base)
+            except OSError:
+                pass
+        print("program:            ", brief(a))
+        print("transformed program:", brief(b))
+        return view(a) == view(b)
     fa = [tuple(x) for x in inp["files"]]
     fb = [tuple(x) for x in inp["files_transformed"]]
     fs_a = _fs_back(inp.get("fs")) if inp.get("fs") else None
